@@ -39,6 +39,10 @@ type Config struct {
 	RoundModel           bool
 	NonFiniteIsViolation bool
 	RealInputs           bool
+	DeltaModel           bool
+	IntInputs            bool
+	NoPrune              bool
+	BugHunt              bool
 	Workers              int
 	TimeoutMs            int
 	Solver               SolverKind
@@ -60,6 +64,8 @@ type Engine struct {
 	initCtx       *TermCtx
 	initObjs      int
 	initOK        map[string]bool
+	initRoots     []string
+	initDomain    Domain
 	fnameOnce     sync.Once
 	fnames        map[string]bool
 
@@ -82,6 +88,8 @@ type HarnessStats struct {
 	UnknownBranches                  int
 	UFOps, IdealOps, IdealCmps       int
 	RoundedOps                       int
+	EnclosedOps                      int
+	Undecided                        int
 	PermittedPanics                  int
 	Sat, Unsat, Unknown              int
 	SolverTime                       time.Duration
@@ -209,6 +217,8 @@ func LoadEngine(cfg Config, verif string) (*Engine, error) {
 // runInit executes package initialisers concretely, once.
 func (e *Engine) runInit(roots []string) (err error) {
 	e.initCtx = NewTermCtx()
+	e.initDomain = e.cfg.Domain
+	e.globals = map[*ssa.Global]*Object{}
 	s := &State{eng: e, ctx: e.initCtx, initPhase: true, overlay: map[*Object]*Object{}, backedges: map[*ssa.BasicBlock]int{}, finfo: map[*Term]*FInfo{}, nonNaN: map[*Term]bool{}, keyMemo: map[*Term]*Term{}}
 	s.run = &PathRun{inputNames: map[string]bool{}, kInputs: map[string]bool{}, covers: map[string]bool{}, tags: map[string]bool{}, bounds: map[string]int64{}}
 	// globals of initialisable packages
@@ -438,9 +448,19 @@ func (e *Engine) RunHarness(spec HarnessSpec) (*HarnessStats, error) {
 		return nil, err
 	}
 	e.cfg.Domain = spec.Domain
+	if e.initDomain != spec.Domain {
+		// package-level float variables are represented per domain: re-run the initialisers
+		if err := e.runInit(e.initRoots); err != nil {
+			return nil, err
+		}
+	}
 	e.cfg.RoundModel = spec.RoundModel
 	e.cfg.NonFiniteIsViolation = spec.NonFinite
 	e.cfg.RealInputs = spec.RealInputs
+	e.cfg.DeltaModel = spec.DeltaModel
+	e.cfg.IntInputs = spec.IntInputs
+	e.cfg.NoPrune = spec.NoPrune
+	e.cfg.BugHunt = spec.BugHunt
 	if spec.MaxSteps > 0 {
 		e.cfg.MaxSteps = spec.MaxSteps
 	}
@@ -485,6 +505,9 @@ func (e *Engine) worker(w int, fn *ssa.Function, spec HarnessSpec) {
 		return
 	}
 	solver.nlsat = spec.Domain == DomainX
+	if spec.IntInputs {
+		solver.tactic = "qfnia" // bounded integers: z3's nla2bv/bit-blasting portfolio
+	}
 	defer func() {
 		e.mu.Lock()
 		e.stats.Sat += solver.nSat
@@ -559,6 +582,8 @@ func (e *Engine) runPath(ctx *TermCtx, solver *Solver, fn *ssa.Function, spec Ha
 	st.IdealOps += run.idealOps
 	st.IdealCmps += run.idealCmps
 	st.RoundedOps += run.roundedOps
+	st.EnclosedOps += run.enclosedOps
+	st.Undecided += run.undecided
 	st.PermittedPanics += run.permittedPanics
 	if s.steps > st.MaxSteps {
 		st.MaxSteps = s.steps
